@@ -506,8 +506,8 @@ func init() {
 		Level: "exploration",
 		Rule: "report-class profiles (as C04) x granularity x noinlines x sample_index x 4 trim points: nodecount in {0,1,2,3,5,n-1,n,n+1}, nodefraction placed just below/at/above an actual |cum|/sum(flat) ratio (or 0, .005, .3, 1, 2), edgefraction around an actual edge ratio, flat/cum sort; rendered as -top, -tree, -dot and -dot -call_tree through the real driver. " +
 			"oracle: shown entries carry their untrimmed flat/cum; text reports show exactly min(N, #{|cum|>=cutoff}) entries, none below the cutoff, no hidden eligible entry outranking a shown one, rows ordered by the sort magnitude; legends (accounting for, Dropped K nodes, top N of M) match; every edge joins shown entries; solid edges carry the untrimmed direct adjacency weight, dotted edges the adjacency over the shown entries with at least one bypassing sample; -tree completeness at the edge cutoff; call trees: <=1 parent, edge weight = child's cum, every node matches a distinct untrimmed tree node. non-trivial = at least 2 untrimmed entries; distinct = profile shape",
-		Assumptions: []string{"node cutoff = |trunc(sum of untrimmed flat x nodefraction)|, edge cutoff likewise (documented rule)", "cases in which two untrimmed entries share a printable name are skipped (entries are identified by name in the output)", "graphical reports pick survivors heuristically: only invariance, cutoff and nodecount bound are checked for -dot"},
-		Parts:       []harness.Part{{Name: "trim", Quick: 8000, Thor: 200000, Run: runCase}},
+		Assumptions:   []string{"node cutoff = |trunc(sum of untrimmed flat x nodefraction)|, edge cutoff likewise (documented rule)", "cases in which two untrimmed entries share a printable name are skipped (entries are identified by name in the output)", "graphical reports pick survivors heuristically: only invariance, cutoff and nodecount bound are checked for -dot"},
+		Parts:         []harness.Part{{Name: "trim", Quick: 8000, Thor: 200000, Run: runCase}},
 		MinNonTrivial: func(string) int { return 300 },
 		Finish: func(tier string, st map[string]int64) string {
 			if st["residual_edges_seen"] == 0 {
